@@ -166,33 +166,41 @@ pub fn to_rd<G: GraphLike, R: ScalarInto>(g: &G, assignment: Option<u32>) -> Res
 #[derive(Debug, Clone)]
 pub enum Tensor {
     Exact(Vec<Zw>),
-    Float(Vec<Cf>),
+    /// float tensor plus an upper bound on the magnitude any entry could have (number of summands x summand size):
+    /// rounding noise is judged relative to it, so that 1e-17 and 0 compare equal
+    Float(Vec<Cf>, f64),
     /// not a well-formed diagram / not evaluable, with reason
     Bad(String),
 }
 
 impl Tensor {
+    pub fn noise_scale(&self) -> f64 {
+        match self {
+            Tensor::Float(_, s) => *s,
+            _ => 0.0,
+        }
+    }
     pub fn is_bad(&self) -> bool {
         matches!(self, Tensor::Bad(_))
     }
     pub fn len(&self) -> usize {
         match self {
             Tensor::Exact(v) => v.len(),
-            Tensor::Float(v) => v.len(),
+            Tensor::Float(v, _) => v.len(),
             Tensor::Bad(_) => 0,
         }
     }
     pub fn to_float(&self) -> Option<Vec<Cf>> {
         match self {
             Tensor::Exact(v) => Some(v.iter().map(|x| Cf(x.to_c64())).collect()),
-            Tensor::Float(v) => Some(v.clone()),
+            Tensor::Float(v, _) => Some(v.clone()),
             Tensor::Bad(_) => None,
         }
     }
     pub fn show(&self) -> String {
         match self {
             Tensor::Exact(v) => format!("[{}]", v.iter().map(|x| x.key()).collect::<Vec<_>>().join(" ; ")),
-            Tensor::Float(v) => format!("[{}]", v.iter().map(|x| format!("{:.6}{:+.6}i", x.0.re, x.0.im)).collect::<Vec<_>>().join(" ; ")),
+            Tensor::Float(v, _) => format!("[{}]", v.iter().map(|x| format!("{:.6}{:+.6}i", x.0.re, x.0.im)).collect::<Vec<_>>().join(" ; ")),
             Tensor::Bad(s) => format!("<{}>", s),
         }
     }
@@ -205,14 +213,29 @@ pub fn tensors_equal(a: &Tensor, b: &Tensor) -> bool {
     match (a, b) {
         (Tensor::Exact(x), Tensor::Exact(y)) => tensor_eq(x, y, 0.0),
         (Tensor::Bad(_), _) | (_, Tensor::Bad(_)) => false,
-        _ => tensor_eq(&a.to_float().unwrap(), &b.to_float().unwrap(), REL_TOL),
+        _ => {
+            let (x, y) = (a.to_float().unwrap(), b.to_float().unwrap());
+            if x.len() != y.len() {
+                return false;
+            }
+            let scale = max_abs(&x).max(max_abs(&y)).max(1e-4 * a.noise_scale().max(b.noise_scale()));
+            x.iter().zip(&y).all(|(p, q)| (p.0 - q.0).norm() <= REL_TOL * scale)
+        }
     }
 }
 pub fn tensors_prop(a: &Tensor, b: &Tensor) -> bool {
     match (a, b) {
         (Tensor::Exact(x), Tensor::Exact(y)) => tensor_prop(x, y, 0.0),
         (Tensor::Bad(_), _) | (_, Tensor::Bad(_)) => false,
-        _ => tensor_prop(&a.to_float().unwrap(), &b.to_float().unwrap(), REL_TOL),
+        _ => {
+            // entries below the rounding-noise floor count as zero
+            let clean = |t: &Tensor| -> Vec<Cf> {
+                let v = t.to_float().unwrap();
+                let floor = 1e-13 * t.noise_scale();
+                v.into_iter().map(|x| if x.0.norm() <= floor { Cf(num::complex::Complex64::new(0.0, 0.0)) } else { x }).collect()
+            };
+            tensor_prop(&clean(a), &clean(b), REL_TOL)
+        }
     }
 }
 
@@ -243,7 +266,11 @@ pub fn eval_graph<G: GraphLike>(g: &G, assignment: Option<u32>) -> Tensor {
     }
     match to_rd::<G, Cf>(g, assignment) {
         Ok(d) => match d.eval() {
-            Ok(t) => Tensor::Float(t),
+            Ok(t) => {
+                // every entry is a sum of at most 2^spiders terms of modulus |scalar| * 2^(-#Hadamard-kind edges / 2)
+                let bound = d.scalar.0.norm() * (d.num_spiders() as f64).exp2();
+                Tensor::Float(t, bound.max(f64::MIN_POSITIVE))
+            }
             Err(e) => Tensor::Bad(format!("{:?}", e)),
         },
         Err(e) => Tensor::Bad(format!("{:?}", e)),
@@ -335,7 +362,7 @@ pub fn sim_circuit(rc: &RCircuit) -> (Tensor, usize, usize) {
         return (Tensor::Exact(r.tensor), r.n_in, r.n_out);
     }
     match qzv_ref::circuit::sim::<Cf>(rc) {
-        Some(r) => (Tensor::Float(r.tensor), r.n_in, r.n_out),
+        Some(r) => (Tensor::Float(r.tensor, (rc.q as f64).exp2()), r.n_in, r.n_out),
         None => (Tensor::Bad("unsimulable".into()), 0, 0),
     }
 }
